@@ -73,7 +73,7 @@ func isFalseReturnOnly(set InstrSet, fn *ssa.Function) (ok bool, n int) {
 			continue
 		}
 		n++
-		for _, v := range Origins(r.Results[0]) {
+		for _, v := range RetOrigins(r, 0) {
 			cst, isC := v.(*ssa.Const)
 			if !isC || cst.Value == nil || cst.Value.String() != "false" {
 				ok = false
@@ -273,8 +273,14 @@ func c16MapEquality(c *Check, id string, eq *ssa.Function, f *types.Var, isA, is
 			c.Undecided(id, "MAP-EQ", eq, rg.Pos(), k, "cannot find the iteration step of the range")
 			continue
 		}
-		isKey := func(v ssa.Value) bool { e, ok := v.(*ssa.Extract); return ok && e.Tuple == ssa.Value(next) && e.Index == 1 }
-		isVal := func(v ssa.Value) bool { e, ok := v.(*ssa.Extract); return ok && e.Tuple == ssa.Value(next) && e.Index == 2 }
+		isKey := func(v ssa.Value) bool {
+			e, ok := v.(*ssa.Extract)
+			return ok && e.Tuple == ssa.Value(next) && e.Index == 1
+		}
+		isVal := func(v ssa.Value) bool {
+			e, ok := v.(*ssa.Extract)
+			return ok && e.Tuple == ssa.Value(next) && e.Index == 2
+		}
 		other := isB
 		if isB(rg.X) {
 			other = isA
@@ -408,8 +414,14 @@ func c16Copy(c *Check, id string) {
 	}
 	nset := 0
 	for _, s := range CallsTo(cp, nMetaSet) {
-		okK := AllOrigins(Arg(s, 0), func(v ssa.Value) bool { e, ok := v.(*ssa.Extract); return ok && e.Tuple == ssa.Value(next) && e.Index == 1 })
-		okV := AllOrigins(Arg(s, 1), func(v ssa.Value) bool { e, ok := v.(*ssa.Extract); return ok && e.Tuple == ssa.Value(next) && e.Index == 2 })
+		okK := AllOrigins(Arg(s, 0), func(v ssa.Value) bool {
+			e, ok := v.(*ssa.Extract)
+			return ok && e.Tuple == ssa.Value(next) && e.Index == 1
+		})
+		okV := AllOrigins(Arg(s, 1), func(v ssa.Value) bool {
+			e, ok := v.(*ssa.Extract)
+			return ok && e.Tuple == ssa.Value(next) && e.Index == 2
+		})
 		rf, base := (*types.Var)(nil), ssa.Value(nil)
 		if u, ok := firstOrigin(Receiver(s)).(*ssa.UnOp); ok {
 			rf, base = FieldOf(u.X)
@@ -427,8 +439,14 @@ func c16Copy(c *Check, id string) {
 		if !ok {
 			return
 		}
-		okK := AllOrigins(mu.Key, func(v ssa.Value) bool { e, ok := v.(*ssa.Extract); return ok && e.Tuple == ssa.Value(next) && e.Index == 1 })
-		okV := AllOrigins(mu.Value, func(v ssa.Value) bool { e, ok := v.(*ssa.Extract); return ok && e.Tuple == ssa.Value(next) && e.Index == 2 })
+		okK := AllOrigins(mu.Key, func(v ssa.Value) bool {
+			e, ok := v.(*ssa.Extract)
+			return ok && e.Tuple == ssa.Value(next) && e.Index == 1
+		})
+		okV := AllOrigins(mu.Value, func(v ssa.Value) bool {
+			e, ok := v.(*ssa.Extract)
+			return ok && e.Tuple == ssa.Value(next) && e.Index == 2
+		})
 		okR := false
 		if u, isU := firstOrigin(mu.Map).(*ssa.UnOp); isU {
 			rf, base := FieldOf(u.X)
@@ -581,7 +599,10 @@ func c16CopyLiteral(c *Check, id string, cp *ssa.Function, T *types.Named) {
 	}
 	nset := 0
 	fromNext := func(i int) func(ssa.Value) bool {
-		return func(v ssa.Value) bool { e, ok := v.(*ssa.Extract); return ok && e.Tuple == ssa.Value(next) && e.Index == i }
+		return func(v ssa.Value) bool {
+			e, ok := v.(*ssa.Extract)
+			return ok && e.Tuple == ssa.Value(next) && e.Index == i
+		}
 	}
 	AllInstrs(cp, func(in ssa.Instruction) {
 		switch x := in.(type) {
@@ -855,9 +876,9 @@ func unwrapSliceConv(v ssa.Value) ssa.Value {
 
 func c16Codecs(c *Check, id string) {
 	pairs := map[string]string{
-		"encoding/json.Marshal":                  "encoding/json.Unmarshal",
+		"encoding/json.Marshal":                    "encoding/json.Unmarshal",
 		"google.golang.org/protobuf/proto.Marshal": "google.golang.org/protobuf/proto.Unmarshal",
-		"github.com/gogo/protobuf/proto.Marshal": "github.com/gogo/protobuf/proto.Unmarshal",
+		"github.com/gogo/protobuf/proto.Marshal":   "github.com/gogo/protobuf/proto.Unmarshal",
 	}
 	tp := c.P.TypesPkg("components/cqrs")
 	if tp == nil {
@@ -936,6 +957,35 @@ func c16Codecs(c *Check, id string) {
 				return false
 			})
 			c.Report(pf != nil && pf.Name() == "Payload" && okD, id, "CODEC/decode", unm, d.Pos(), name, "Unmarshal applies the matching decoder to the payload, into the given value")
+			// failure means the decoder failed (or the value is not of the codec's kind): no other condition — an empty
+			// payload, a size, a metadata key — makes Unmarshal refuse what Marshal produced
+			_, notKind := BoolEdges(unm, func(v ssa.Value) bool {
+				e, ok := v.(*ssa.Extract)
+				if !ok || e.Index != 1 {
+					return false
+				}
+				ta, ok := e.Tuple.(*ssa.TypeAssert)
+				return ok && ta.CommaOk && FromParam(dst)(ta.X)
+			})
+			// a deferred closure may turn a decoder panic into an error, or ask a sibling codec (judged by this same rule)
+			inDefer := func(v ssa.Value) bool {
+				in, ok := v.(ssa.Instruction)
+				if !ok || in.Parent() == unm || in.Parent().Parent() != unm {
+					return false
+				}
+				if cl, isCall := v.(*ssa.Call); isCall {
+					if cal := CalleeFn(cl.Common()); cal != nil && cal.Name() == "Unmarshal" && cal.Pkg == unm.Pkg && cal != unm {
+						return true
+					}
+				}
+				_, recovered := NilEdges(in.Parent(), func(x ssa.Value) bool {
+					return AllOrigins(x, func(o ssa.Value) bool { _, is := IsBuiltinCall(o, "recover"); return is })
+				})
+				return len(recovered) > 0 && GuardedBy(in.Parent(), in, recovered)
+			}
+			ErrorsOnlyFromKindsAlso(c, id, "CODEC/decode-fails-only-in-the-decoder", unm, func(cl ssa.CallInstruction) (int, bool) {
+				return 0, cl == d
+			}, notKind, inDefer, "Unmarshal fails only when the decoder fails or the destination is not a value of the codec's kind (an encoding of a zero value may be empty)")
 			// success means decoded: no nil return that did not go through the decoder
 			re := ReachEntry(unm, NewCut().AddInstrs(d))
 			for i, r := range Returns(unm) {
@@ -1004,9 +1054,21 @@ func c16Reply(c *Check, id string) {
 		})
 		c.Report(okR, id, "REPLY-WRITE/result", mar, jm[0].Pos(), "HandlerResult", "the handler result is JSON-encoded")
 		okP := false
+		isEnc := func(v ssa.Value) bool { return IsResultOf(v, jm[0], 0) }
 		for _, st := range FieldStoresByName(mar, "Payload") {
-			if AllOrigins(unwrapSliceConv(st.Val), func(v ssa.Value) bool { return IsResultOf(v, jm[0], 0) }) {
+			if AllOrigins(unwrapSliceConv(st.Val), isEnc) {
 				okP = true
+			} else {
+				okP = false
+				break
+			}
+		}
+		if len(FieldStoresByName(mar, "Payload")) == 0 {
+			// or the message is built with the encoded result right away
+			for _, nm := range CallsTo(mar, nNewMessage) {
+				if AllOrigins(unwrapSliceConv(nm.Common().Args[1]), isEnc) {
+					okP = true
+				}
 			}
 		}
 		c.Report(okP, id, "REPLY-WRITE/payload", mar, jm[0].Pos(), "payload", "the encoded result is the reply's payload")
